@@ -351,7 +351,7 @@ int verif_case(const uint8_t *tape, size_t tlen, Info *info) {
   {
     char b[160];
     snprintf(b, sizeof b, "sessions=%u msgs=%zu AT=%u ARF=%u MAXRT=%u%s;", nsess, cs.msgs.size(), cs.sess[0].at_ms, cs.sess[0].arf_ms, cs.sess[0].max_rt, sweep ? " sweep" : "");
-    info->r("%s%s", b, simh::render_trace(w, 40).c_str());
+    info->rs(b); info->rs(simh::render_trace(w, 60));
     for (auto &e : w.trace) if (e.kind == EV_SEND || e.kind == EV_DELIVER || e.kind == EV_DROP) { info->mixu(e.t); info->mixu(e.kind); info->mixu(e.index); info->mix(e.data.data(), e.data.size()); }
   }
   w.remove_context(ctx);
